@@ -28,7 +28,8 @@ Proof. intros. unfold bumps. apply fold_left_app. Qed.
 
 (* invariants of the counters along any sequence of outcomes *)
 Lemma bumps_inv : forall ks x, let y := bumps ks x in
-  succ y + fail y = succ x + fail x + Z.of_nat (List.length ks)
+  succ y = succ x + Z.of_nat (List.length (filter is_ok ks))
+  /\ succ y + fail y = succ x + fail x + Z.of_nat (List.length ks)
   /\ succ x <= succ y /\ fail x <= fail y /\ confl x <= confl y
   /\ nrdy x <= nrdy y /\ unav x <= unav y
   /\ (confl y - confl x) + (nrdy y - nrdy x) <= fail y - fail x
@@ -39,7 +40,7 @@ Proof.
   - unfold bumps. cbn [fold_left]. fold (bumps ks (bump k x)).
     specialize (IH (bump k x)). cbn zeta in IH.
     replace (Z.of_nat (List.length (k :: ks))) with (Z.of_nat (List.length ks) + 1) by (cbn [List.length]; lia).
-    destruct k; unfold bump in *; cbn [is_ok is_conflict is_notready is_unavail b2z succ fail confl nrdy unav] in *; lia.
+    destruct k; unfold bump in *; cbn [filter List.length is_ok is_conflict is_notready is_unavail b2z succ fail confl nrdy unav] in *; lia.
 Qed.
 
 (* per-series view of the state *)
@@ -123,7 +124,7 @@ Lemma repl_cause_conflict : forall ft x, 1 <= ft ->
   confl x >= ft -> fail x >= confl x -> nrdy x <= confl x -> unav x <= confl x ->
   repl_cause ft x = Some CConflict.
 Proof.
-  intros ft x Hft Hc Hf Hn Hu. unfold repl_cause. rewrite skeleton_holds. cbn [negb].
+  intros ft x Hft Hc Hf Hn Hu. unfold repl_cause.
   destruct (Z.eqb_spec (fail x) 0) as [E|E]; [lia|].
   unfold replCause_order. cbn [exp_entries cause_of_name count_of_pred String.eqb Ascii.eqb Bool.eqb].
   unfold sort_desc. cbn [fold_left ins_desc snd fst].
@@ -285,6 +286,69 @@ Section Order.
         + rewrite (all_det_mono _ _ Hsplit H) in Eall. discriminate.
         + subst k. rewrite firstn_all. reflexivity.
     Qed.
+
+    (* ---- the status is exactly the order-free specification ---- *)
+    Lemma total_counters : forall s, (s < n)%nat ->
+      let x := nth s (reach n rs) sst0 in
+      succ x = successes_of s rs /\ confl x = conflicts_of s rs /\ succ x + fail x = nrep /\ 0 <= confl x <= fail x.
+    Proof.
+      intros s Hs. cbn zeta.
+      pose proof (prefix_facts rs [] s (eq_sym (app_nil_r rs)) Hs) as F. cbn zeta in F.
+      rewrite reach_nth in * by exact Hs.
+      pose proof (bumps_inv (kinds_for s rs) sst0) as I. cbn zeta in I. cbn [succ fail confl nrdy unav sst0] in I.
+      pose proof (Hwf s Hs) as W. unfold responses_of in W. unfold successes_of. lia.
+    Qed.
+
+    Lemma all_det_total : can_return_early q ft (reach n rs)
+      = forallb (fun s => (successes_of s rs >=? q) || (conflicts_of s rs >=? ft)) (seq 0 n).
+    Proof.
+      apply eq_true_iff_eq. unfold can_return_early. rewrite !forallb_forall. split.
+      - intros H s Hin. apply in_seq in Hin. assert (Hs : (s < n)%nat) by lia.
+        specialize (H (nth s (reach n rs) sst0) ltac:(apply nth_In; rewrite reach_length; exact Hs)).
+        destruct (total_counters s Hs) as [T1 [T2 _]]. unfold determined in H. rewrite T1, T2 in H.
+        destruct (Z.ltb_spec (successes_of s rs) q), (Z.ltb_spec (conflicts_of s rs) ft); cbn [andb negb] in H; try discriminate;
+        destruct (Z.geb_spec (successes_of s rs) q), (Z.geb_spec (conflicts_of s rs) ft); cbn [orb]; try reflexivity; lia.
+      - intros H x Hin. apply (In_nth _ _ sst0) in Hin as [s [Hs Hx]]. rewrite reach_length in Hs.
+        specialize (H s ltac:(apply in_seq; lia)).
+        destruct (total_counters s Hs) as [T1 [T2 _]]. rewrite Hx in T1, T2. unfold determined. rewrite T1, T2.
+        destruct (Z.geb_spec (successes_of s rs) q), (Z.geb_spec (conflicts_of s rs) ft); cbn [orb] in H; try discriminate;
+        destruct (Z.ltb_spec (successes_of s rs) q), (Z.ltb_spec (conflicts_of s rs) ft); cbn [andb negb]; try reflexivity; lia.
+    Qed.
+
+    Lemma status_is_spec : fan_status n q ft rs = Some (spec_status n q ft rs).
+    Proof.
+      unfold fan_status. rewrite threshold_is_failure_threshold, loop_closed_form, all_det_total.
+      unfold spec_status.
+      destruct (forallb (fun s => (successes_of s rs >=? q) || (conflicts_of s rs >=? ft)) (seq 0 n)) eqn:B.
+      - destruct (forallb (fun s => successes_of s rs >=? q) (seq 0 n)) eqn:A.
+        + assert (Hp : perm_fail n ft rs = false).
+          { unfold perm_fail. destruct (existsb (fun s => conflicts_of s rs >=? ft) (seq 0 n)) eqn:E; [|reflexivity]. exfalso.
+            apply existsb_exists in E as [s [Hin Hc]]. rewrite forallb_forall in A. specialize (A s Hin).
+            apply in_seq in Hin. destruct (total_counters s ltac:(lia)) as [T1 [T2 [T3 T4]]].
+            destruct (Z.geb_spec (successes_of s rs) q); [|discriminate].
+            destruct (Z.geb_spec (conflicts_of s rs) ft); [|discriminate]. lia. }
+          rewrite Hp. reflexivity.
+        + assert (Hp : perm_fail n ft rs = true).
+          { apply forallb_false_exists in A as [s [Hin Hs]]. rewrite forallb_forall in B. specialize (B s Hin).
+            rewrite Hs in B. cbn [orb] in B. unfold perm_fail. apply existsb_exists. exists s. auto. }
+          rewrite Hp. cbn [result_status]. exact status_conflict.
+      - assert (A : forallb (fun s => successes_of s rs >=? q) (seq 0 n) = false).
+        { destruct (forallb (fun s => successes_of s rs >=? q) (seq 0 n)) eqn:A; [|reflexivity]. exfalso.
+          assert (forallb (fun s => (successes_of s rs >=? q) || (conflicts_of s rs >=? ft)) (seq 0 n) = true).
+          { apply forallb_forall. intros s Hin. rewrite forallb_forall in A. rewrite (A s Hin). reflexivity. }
+          congruence. }
+        rewrite A.
+        apply forallb_false_exists in B as [s [Hin Hs]]. apply in_seq in Hin. assert (Hlt : (s < n)%nat) by lia.
+        destruct (total_counters s Hlt) as [T1 [T2 [T3 T4]]].
+        apply orb_false_iff in Hs as [Hs1 Hs2].
+        destruct (Z.geb_spec (successes_of s rs) q); [discriminate|].
+        destruct (Z.geb_spec (conflicts_of s rs) ft); [discriminate|].
+        destruct (finish_retryable ft (reach n rs) (nth s (reach n rs) sst0) Hft) as [c [E Hc]].
+        + apply nth_In. rewrite reach_length. exact Hlt.
+        + lia.
+        + lia.
+        + rewrite E. cbn [result_status]. destruct Hc as [->| ->]; [exact status_notready|exact status_unavailable].
+    Qed.
   End Fixed.
 
   Lemma responses_of_perm : forall s rs rs', Permutation rs rs' -> responses_of s rs = responses_of s rs'.
@@ -327,4 +391,48 @@ Proof.
   unfold writeQuorum. destruct (Z.eqb_spec rf 2); [lia|].
   Ltac Zify.zify_post_hook ::= Z.to_euclidean_division_equations.
   lia.
+Qed.
+
+Lemma fan_status_is_spec : forall n nrep q ft rs,
+  1 <= ft -> q + ft = nrep + 1 -> q <= ft + 1 ->
+  (forall s, (s < n)%nat -> responses_of s rs = nrep) ->
+  fan_status n q ft rs = Some (spec_status n q ft rs).
+Proof. intros n nrep q ft rs Hft Hsum Hqft Hwf. exact (status_is_spec n nrep q ft Hft Hsum Hqft rs Hwf). Qed.
+
+Lemma spec_threshold_is : forall rf rep, 1 <= rf -> spec_threshold rf rep = success_threshold rf rep.
+Proof.
+  intros rf rep H. unfold spec_threshold, success_threshold, spec_quorum, writeQuorum.
+  destruct (Z.eqb_spec rep 0); [|reflexivity]. destruct (Z.eqb_spec rf 2); [reflexivity|].
+  Ltac Zify.zify_post_hook ::= Z.to_euclidean_division_equations.
+  lia.
+Qed.
+
+Lemma existsb_conflicts' : forall n rs ft,
+  existsb (fun s => conflicts_of s rs >=? ft) (seq 0 n) = true <->
+  exists s, (s < n)%nat /\ conflicts_of s rs >= ft.
+Proof. exact existsb_conflicts. Qed.
+
+Lemma handle_pred : forall rf rep place ws, 1 <= rf -> 0 <= rep ->
+  (forall s, (s < List.length place)%nat -> responses_of s (resps_of place ws) = n_replicas rf rep) ->
+  exists st, handle rf rep place ws = Some st /\ pred_ok (CFan rf rep place ws st) = true.
+Proof.
+  intros rf rep place ws Hrf Hrep Hwf. unfold handle. cbn [pred_ok].
+  destruct (rep >? rf) eqn:Er.
+  - destruct (Nat.eqb (List.length place) 0); eexists; (split; [first [reflexivity|exact status_badreplica]|reflexivity]).
+  - destruct (Nat.eqb (List.length place) 0) eqn:En; [exists 200; split; reflexivity|].
+    destruct (handler_thresholds rf rep Hrf Hrep) as [Hq [Hft [Hsum [Hqft Hspec]]]]. cbn zeta in *.
+    rewrite (spec_threshold_is rf rep Hrf).
+    set (q := success_threshold rf rep) in *. set (nrep := n_replicas rf rep) in *.
+    rewrite <- Hspec. set (ft := failureThreshold_expr nrep q) in *.
+    set (rs := resps_of place ws) in *. set (n := List.length place) in *.
+    rewrite (fan_status_is_spec n nrep q ft rs Hft Hsum Hqft Hwf).
+    eexists. split; [reflexivity|].
+    destruct (only_conflict_unavailable ws); [apply Z.eqb_refl|].
+    unfold spec_status.
+    destruct (forallb (fun s => successes_of s rs >=? q) (seq 0 n)) eqn:A; [reflexivity|].
+    destruct (forallb (fun s => (successes_of s rs >=? q) || (conflicts_of s rs >=? ft)) (seq 0 n)) eqn:B; [|reflexivity].
+    cbn [Z.eqb Pos.eqb negb orb].
+    apply forallb_false_exists in A as [s [Hin Hs]]. rewrite forallb_forall in B. specialize (B s Hin).
+    rewrite Hs in B. cbn [orb] in B.
+    apply existsb_exists. exists s. split; [exact Hin|exact B].
 Qed.
